@@ -443,7 +443,13 @@ Fixpoint per_param_any (flags : list bool) (nbs : list nat) : list bool :=
 Definition changed (a b : tm) : bool := negb (tm_eqb a b).
 
 (* model (token instance) against one step's observations; [sB] is the reference run's model state *)
-Definition agree_step (lay : layout) (s0 s1 sB : tm_state) (o : obs_step) : bool :=
+(* [strict = true]: the implementation changes exactly the blocks the model changes (used when a present block is
+   known to move: binary64, non-zero gradients, a root computation at every step).  [strict = false]: it changes
+   AT MOST those (zero / tiny gradients, low-precision storage, lr = 0, steps between two root computations: a present
+   block may legitimately stay bit-identical); everything else is compared in the same way. *)
+Definition flag_ok (strict : bool) (obs m : bool) : bool := if strict then Bool.eqb obs m else implb obs m.
+
+Definition agree_step (strict : bool) (lay : layout) (s0 s1 sB : tm_state) (o : obs_step) : bool :=
   let vchg := map (fun p : tm * tm => changed (fst p) (snd p)) (combine (g_vals s0) (g_vals s1)) in
   let schg := map (fun p : tm * tm => changed (fst p) (snd p)) (combine (g_sts s0) (g_sts s1)) in
   Z.eqb (ob_counter o) (g_step s1)
@@ -453,27 +459,32 @@ Definition agree_step (lay : layout) (s0 s1 sB : tm_state) (o : obs_step) : bool
   && list_nat_eqb (ob_dparams o) (d_mparams (g_d s1))
   && list_nat_eqb (ob_oparams o) (o_mparams (g_o s1))
   && forallb2 list_nat_eqb (ob_comps o) (o_mstate (g_o s1) :: o_mextra (g_o s1))
-  && list_bool_eqb (ob_vchg o) vchg
-  && forallb2 (fun obs m => Bool.eqb (any_true obs) m && (m || all_true (map negb obs))) (ob_schg o) schg
-  && list_bool_eqb (ob_pchg o) (per_param_any vchg (l_nbs lay))
+  && forallb2 (flag_ok strict) (ob_vchg o) vchg
+  && forallb2 (fun obs m => flag_ok strict (any_true obs) m && (m || all_true (map negb obs))) (ob_schg o) schg
+  && forallb2 (flag_ok strict) (ob_pchg o) (per_param_any vchg (l_nbs lay))
   && Nat.eqb (length (ob_ptr o)) (length vchg) && all_true (ob_ptr o)
   && list_bool_eqb (ob_same o)
        (map (fun p : (tm * tm) * (tm * tm) => tm_eqb (fst (fst p)) (fst (snd p)) && tm_eqb (snd (fst p)) (snd (snd p)))
             (combine (combine (g_vals s1) (g_sts s1)) (combine (g_vals sB) (g_sts sB)))).
 
-Fixpoint agree_trace (lay : layout) (s0 : tm_state) (trA trB : list (res tm_state)) (obs : list obs_step) : bool :=
+Fixpoint agree_trace (strict : bool) (lay : layout) (s0 : tm_state) (trA trB : list (res tm_state)) (obs : list obs_step) : bool :=
   match trA, trB, obs with
   | [], [], [] => true
-  | Ok s1 :: trA', Ok sB :: trB', o :: obs' => agree_step lay s0 s1 sB o && agree_trace lay s1 trA' trB' obs'
+  | Ok s1 :: trA', Ok sB :: trB', o :: obs' => agree_step strict lay s0 s1 sB o && agree_trace strict lay s1 trA' trB' obs'
   | _, _, _ => false
   end.
 
-(* [focus]: per parameter, true when the reference run holds the same data for it; the other parameters of the
-   reference run have different values and gradients (same shapes, same presence). *)
-Definition C04_agree (lay : layout) (focus : list bool) (h : list (list bool)) (obs : list obs_step) : bool :=
+(* [focus]: per parameter, true when the reference run holds the same data for it.  The OTHER parameters of the
+   reference run have different values and gradients and follow the presence history [hB], which may differ from
+   [h] on them (MasksProofs.present_block_noninterference only needs the focus blocks' own gradients to coincide and
+   the group to step at the same moments): a block must not depend on WHICH other blocks are absent either. *)
+Definition C04_agree_gen (strict : bool) (lay : layout) (focus : list bool) (h hB : list (list bool)) (obs : list obs_step) : bool :=
   let noalt := map (fun _ => false) focus in
   let alt := map negb focus in
   let altl := compress (expand alt (l_nbs lay)) (l_dsel lay) in
   let sA := tm_init lay (map (fun _ => false) altl) in
   let sB := tm_init lay altl in
-  agree_trace lay sA (tm_trace lay noalt 1 sA h) (tm_trace lay alt 1 sB h) obs.
+  agree_trace strict lay sA (tm_trace lay noalt 1 sA h) (tm_trace lay alt 1 sB hB) obs.
+
+Definition C04_agree (lay : layout) (focus : list bool) (h : list (list bool)) (obs : list obs_step) : bool :=
+  C04_agree_gen true lay focus h h obs.
